@@ -512,6 +512,10 @@ def const_value(node, default=None):
         return ast.literal_eval(node)
     except Exception:
         pass
+    if isinstance(node, ast.Call) and isinstance(node.func, ast.Name) and node.func.id == "len" and len(node.args) == 1:
+        a = const_value(node.args[0], None)
+        if isinstance(a, (str, bytes, tuple, list, dict)):
+            return len(a)
     if isinstance(node, ast.BinOp):
         l = const_value(node.left, None)
         r = const_value(node.right, None)
